@@ -2818,3 +2818,56 @@ out:
 }
 
 #endif /* DBUS_ENABLE_EMBEDDED_TESTS */
+
+#ifdef DBUS_VERIF
+/* Verification hook (read-only): canonical text of the pending activations. */
+dbus_bool_t bus_verif_dump_activation (BusActivation *activation, DBusString *out);
+
+dbus_bool_t
+bus_verif_dump_activation (BusActivation *activation,
+                           DBusString    *out)
+{
+  DBusHashIter iter;
+
+  if (!_dbus_string_append_printf (out, "activation n_pending=%d\n",
+                                   activation->n_pending_activations))
+    return FALSE;
+
+  _dbus_hash_iter_init (activation->pending_activations, &iter);
+  while (_dbus_hash_iter_next (&iter))
+    {
+      BusPendingActivation *p = _dbus_hash_iter_get_value (&iter);
+      DBusList *link;
+      dbus_bool_t have_sitter = FALSE;
+
+#ifdef ENABLE_TRADITIONAL_ACTIVATION
+      have_sitter = (p->babysitter != NULL);
+#endif
+
+      if (!_dbus_string_append_printf (out, "pending %s n_entries=%d len_entries=%d timeout_added=%d babysitter=%d entries=",
+                                       p->service_name, p->n_entries,
+                                       _dbus_list_get_length (&p->entries),
+                                       p->timeout_added, have_sitter))
+        return FALSE;
+
+      for (link = _dbus_list_get_first_link (&p->entries);
+           link != NULL;
+           link = _dbus_list_get_next_link (&p->entries, link))
+        {
+          BusPendingActivationEntry *e = link->data;
+
+          if (!_dbus_string_append_printf (out, "%s/%d/%u,",
+                                           e->connection != NULL && bus_connection_is_active (e->connection) ?
+                                             bus_connection_get_name (e->connection) : "(none)",
+                                           e->auto_activation,
+                                           e->activation_message ? dbus_message_get_serial (e->activation_message) : 0))
+            return FALSE;
+        }
+
+      if (!_dbus_string_append_byte (out, '\n'))
+        return FALSE;
+    }
+
+  return TRUE;
+}
+#endif /* DBUS_VERIF */
